@@ -19,6 +19,7 @@ from __future__ import annotations
 
 from .common import *  # noqa: F401,F403
 import json
+import re
 
 from . import boundary
 
@@ -54,8 +55,8 @@ def term(ex, v, sets=None, depth=0) -> str:
         return repr(v.v) if is_conc(v.v) else str(v.v)
     if isinstance(v, VNone):
         return "None"
-    if isinstance(v, VTuple):
-        return "(" + ", ".join(term(ex, x, sets, depth + 1) for x in v.items) + ")"
+    if isinstance(v, VTuple):      # a tuple of names / values says the same as a list of them
+        return "[" + ", ".join(term(ex, x, sets, depth + 1) for x in v.items) + "]"
     if isinstance(v, VSlice):
         return f"slice({term(ex, v.lo, sets, depth + 1)}, {term(ex, v.hi, sets, depth + 1)}, {term(ex, v.step, sets, depth + 1)})"
     if isinstance(v, VRef):
@@ -69,6 +70,27 @@ def term(ex, v, sets=None, depth=0) -> str:
     if isinstance(v, VFunc):
         return v.fi.qualname
     return repr(v)
+
+
+ROOT = re.compile(r"archi\.get_champions_[fx]\(\)|island\d+\.get_population\(\)\.get_[xf]\(\)|champions\d+|best\d+|row\d+\['[a-z_]+'\](?:\['[a-z]+'\])?|processor\d+|champions@'island'=\d+"
+                  r"|extract_data_3d\(\)|problem\.[a-z_]+|df_results|\['(?:simulated_[a-z]+|champion_[a-z]+|best_[a-z]+)'\]|evolution=\[?-?\d+\]?|island=\d+|num_best|_apply_parameters|\\?\"(?:island|id_processor)\\?\": \\?\"\d+\\?\"")
+
+
+def roots(t) -> list:
+    return sorted(ROOT.findall(str(t)))
+
+
+def judge(u, p, name, got, want, replay, witness=None):
+    """Provenance obligation with three outcomes: the term has the expected form -> discharged; it is built from OTHER sources than the
+    expected ones (another optimiser call, island, row, bucket, evolution index ...) -> refuted; the same sources in a form the contract
+    does not recognise (an equivalent re-expression, or a re-ordering it cannot see through) -> undecided, and the native stand-in
+    scenarios decide (check.py): a behaviour-preserving rewrite must never be reported."""
+    if got == want:
+        return u.oblige(p, name, True, witness or {}, replay)
+    if roots(got) != roots(want):
+        return u.oblige(p, name, False, dict(witness or {}, got=str(got)[:300], expected=str(want)[:300]), replay)
+    u.undecide(name, p.ex.root_fn.qualname if p.ex.root_fn else "", f"same sources in an unrecognised form: {str(got)[:200]}")
+    return False
 
 
 def data_of(t: str) -> str:
@@ -116,6 +138,13 @@ def mk_cfg(u, rec):
             return VOpaque("xr", ex.st.fresh_int("ravel"), {"label": "numpy.ravel()", "args": [args[0]]})
         return ex.lib.call(ex, f, args, kwargs, fr)
     cfg.lib_overrides["numpy.ravel"] = ravel
+
+    def same_data(ex, f, args, kwargs, fr):       # np.asarray / np.array of a library array-like: the same data
+        if args and isinstance(args[0], VOpaque) and len(args) == 1 and not kwargs:
+            return args[0]
+        return ex.lib.call(ex, f, args, kwargs, fr)
+    cfg.lib_overrides["numpy.asarray"] = same_data
+    cfg.lib_overrides["numpy.array"] = same_data
     return cfg
 
 
@@ -186,14 +215,14 @@ def champions_unit(u: Unit):
         got = {k: term(p.ex, v, sets) for k, v in stores(p.ex, p, p.value).items()}
         X, F = "archi.get_champions_x()", "numpy.ravel(archi.get_champions_f())"
         u.oblige(p, "report.champions.nodes", sorted(got) == ["champion_decision", "champion_fitness", "champion_parameters"], {"nodes": str(sorted(got))}, CHAMP_REPLAY)
-        u.oblige(p, "report.champions.decision_is_the_optimisers", data_of(got.get("champion_decision", "")) == X, {"got": got.get("champion_decision")}, CHAMP_REPLAY)
-        u.oblige(p, "report.champions.fitness_is_the_optimisers", data_of(got.get("champion_fitness", "")) == F, {"got": got.get("champion_fitness")}, CHAMP_REPLAY)
+        judge(u, p, "report.champions.decision_is_the_optimisers", data_of(got.get("champion_decision", "")), X, CHAMP_REPLAY)
+        judge(u, p, "report.champions.fitness_is_the_optimisers", data_of(got.get("champion_fitness", "")), F, CHAMP_REPLAY)
         conv = [data_of(term(p.ex, x, sets)) for x in rec.get("conv", [])]
         par = data_of(got.get("champion_parameters", ""))
-        par_ok = par.startswith("problem.convert_to_parameters(") and data_of(par[len("problem.convert_to_parameters("):-1]) == X
-        u.oblige(p, "report.champions.parameters_are_the_converted_decision", conv == [X] and par_ok, {"converted": str(conv), "got": got.get("champion_parameters")}, CHAMP_REPLAY)
-        dims = {k: v for k, v in got.items()}
-        ok = ("dims='island'" in dims.get("champion_fitness", "") and "dims=['island', 'param_id']" in dims.get("champion_decision", "") and "dims=['island', 'param_id']" in dims.get("champion_parameters", ""))
+        par_n = "problem.convert_to_parameters(" + data_of(par[len("problem.convert_to_parameters("):-1]) + ")" if par.startswith("problem.convert_to_parameters(") else par
+        judge(u, p, "report.champions.parameters_are_the_converted_decision", (conv, par_n), ([X], f"problem.convert_to_parameters({X})"), CHAMP_REPLAY)
+        dims = {k: re.findall(r"dims=\[?((?:'[a-z_]+'(?:, )?)+)\]?", v) for k, v in got.items()}
+        ok = dims.get("champion_fitness", [None])[-1] == "'island'" and dims.get("champion_decision", [None])[-1] == "'island', 'param_id'" and dims.get("champion_parameters", [None])[-1] == "'island', 'param_id'"
         u.oblige(p, "report.champions.dimensions", ok, {"got": str(dims)[:300]}, CHAMP_REPLAY)
     u.cover("report.champions.cover", ps, lambda p: p.kind == "return")
 
@@ -222,7 +251,7 @@ def best_unit(u: Unit):
             u.oblige(p, f"report.best.one_dataset_per_island[{n_isl}]", bool(ok), {}, CHAMP_REPLAY)
             if not ok:
                 continue
-            good, detail = True, ""
+            good, detail, got_all, want_all = True, "", [], []
             for i, part in enumerate(parts):
                 t = term(p.ex, part)          # <sel>.assign_coords(island=i)
                 selv = part.info.get("fn").info.get("of") if isinstance(part, VOpaque) and "fn" in part.info else None
@@ -235,14 +264,13 @@ def best_unit(u: Unit):
                 Fv = f"island{i}.get_population().get_f().flatten()"
                 want = {"best_decision": f"xarray.DataArray({X}, dims=['individual', 'param_id'])", "best_parameters": f"xarray.DataArray(problem.convert_to_parameters({X}), dims=['individual', 'param_id'])",
                         "best_fitness": f"xarray.DataArray({Fv}, dims=['individual'])"}
-                if st != want:
-                    good, detail = False, f"island {i}: dataset {st}"
-                    break
                 idx = term(p.ex, selv.info.get("kwargs", {}).get("individual"), sets)
-                if idx != f"xarray.DataArray({Fv}, dims=['individual']).argsort()[slice(None, num_best, None)]":
-                    good, detail = False, f"island {i}: selected by {idx}"
-                    break
-            u.oblige(p, f"report.best.aligned_per_island[{n_isl}]", good, {"detail": detail}, CHAMP_REPLAY)
+                got_all.append((st, idx))
+                want_all.append((want, f"xarray.DataArray({Fv}, dims=['individual']).argsort()[slice(None, num_best, None)]"))
+            if good:
+                judge(u, p, f"report.best.aligned_per_island[{n_isl}]", got_all, want_all, CHAMP_REPLAY)
+            else:
+                u.undecide(f"report.best.aligned_per_island[{n_isl}]", fi.qualname, f"unrecognised way of collecting the islands: {detail}")
         u.cover(f"report.best.cover[{n_isl}]", ps, lambda p: p.kind == "return")
 
 
@@ -353,30 +381,26 @@ def evolve_unit(u: Unit):
                 # the list handed to xr.concat: per evolution, its champions (merged with its best individuals) labelled evolution=[k]
                 conc = [e for e in evs if e[0] == "lib_call" and e[1] == "xarray.concat"]
                 parts = p.ex.try_list(conc[0][2][0]) if len(conc) == 1 and conc[0][2] else None
-                ok = parts is not None and len(parts) == nev and term(p.ex, conc[0][3].get("dim")) == "'evolution'"
-                detail = ""
-                if ok:
-                    for k, part in enumerate(parts):
-                        t = term(p.ex, part)
-                        src = f"xarray.merge([champions{k}, best{k}])" if nbest else f"champions{k}"
-                        if not t.startswith(f"{src}.expand_dims(axis=1, evolution=[{k}])"):
-                            ok, detail = False, f"evolution {k}: {t[:160]}"
-                            break
-                u.oblige(p, f"run_evolve.champions_labelled_by_evolution[{tagname}]", bool(ok), {"detail": detail}, EVOLVE_REPLAY)
-                if not ok:
+                if parts is None or len(conc) != 1:
+                    u.undecide(f"run_evolve.champions_labelled_by_evolution[{tagname}]", fi.qualname, "unrecognised way of collecting the evolutions (no single xr.concat of a list)")
+                    continue
+                got_parts = [term(p.ex, part).split(".assign_coords(")[0] for part in parts] + [term(p.ex, conc[0][3].get("dim"))]
+                want_parts = [(f"xarray.merge([champions{k}, best{k}])" if nbest else f"champions{k}") + f".expand_dims(axis=1, evolution=[{k}])" for k in range(nev)] + ["'evolution'"]
+                if not judge(u, p, f"run_evolve.champions_labelled_by_evolution[{tagname}]", got_parts, want_parts, EVOLVE_REPLAY):
                     continue
                 champions = term(p.ex, VOpaque("xr", None, {"label": "xarray.concat()", "args": conc[0][2], "kwargs": conc[0][3]}))
-                re_ok = len(rec.get("resim", [])) == 1 and term(p.ex, rec["resim"][0]) == f"{champions}.isel(evolution=-1)['champion_parameters']"
-                u.oblige(p, f"run_evolve.resimulates_last_champions[{tagname}]", bool(re_ok), {"got": term(p.ex, rec["resim"][0])[-120:] if rec.get("resim") else None}, EVOLVE_REPLAY)
-                nodes = {k: term(p.ex, v, None) for k, v in stores(p.ex, p, p.value).items()}
-                want = {"/champion/fitness": f"{champions}['champion_fitness']", "/champion/decision": f"{champions}['champion_decision']", "/champion/parameters": f"{champions}['champion_parameters']"}
+                # the last of nev evolutions is index -1 or nev - 1
+                got_re = [term(p.ex, x).replace(champions, "<champions>").replace(f"isel(evolution={nev - 1})", "isel(evolution=-1)") for x in rec.get("resim", [])]
+                judge(u, p, f"run_evolve.resimulates_last_champions[{tagname}]", got_re, ["<champions>.isel(evolution=-1)['champion_parameters']"], EVOLVE_REPLAY)
+                sim_t = term(p.ex, VOpaque("xr", None, {"label": "extract_data_3d()"}))
+                nodes = {k: term(p.ex, v, None).replace(champions, "<champions>") for k, v in stores(p.ex, p, p.value).items()}
+                want = {"/champion/fitness": "<champions>['champion_fitness']", "/champion/decision": "<champions>['champion_decision']", "/champion/parameters": "<champions>['champion_parameters']"}
                 sim = "extract_data_3d().rename(id_processor='processor')"
                 for b in ("photon", "charge", "pixel", "signal", "image"):
                     want[f"/simulated/{b}"] = f"{sim}['simulated_{b}']"
                     want[f"/full_size/simulated_{b}"] = f"{sim}['simulated_{b}']"
                 want["/full_size/target"] = "problem.target_full_scale"
-                bad = {k: nodes.get(k) for k in want if nodes.get(k) != want[k]}
-                u.oblige(p, f"run_evolve.nodes_hold_their_own_variable[{tagname}]", not bad, {"differs": str(bad)[:400]}, EVOLVE_REPLAY)
+                judge(u, p, f"run_evolve.nodes_hold_their_own_variable[{tagname}]", [nodes.get(k) for k in sorted(want)], [want[k] for k in sorted(want)], EVOLVE_REPLAY)
                 ex_kw = rec.get("extract", [{}])[0]
                 u.oblige(p, f"run_evolve.simulated_from_the_resimulation[{tagname}]", len(rec.get("extract", [])) == 1 and term(p.ex, ex_kw.get("df_results")) == "df_results", {}, EVOLVE_REPLAY)
             u.cover(f"run_evolve.cover[{tagname}]", ps, lambda p: p.kind == "return")
@@ -452,7 +476,10 @@ def pairs_unit(u: Unit):
                      "data_tree": f"dask.delayed.delayed({FD}::ModelFittingDataTree._apply_parameters)(parameter=champions@'island'={i}.squeeze().to_numpy(), processor=dask.delayed.delayed(processor{k}))"}
                     for k in range(nproc) for i in range(2)]
             norm = lambda rows_: sorted(json.dumps(r, sort_keys=True) for r in rows_ if r is not None)
-            u.oblige(p, f"resimulation.pairs.each_pair_once_with_its_own_champion[{nproc}]", rows is not None and norm(got) == norm(want), {"got": str(got)[:500]}, PAIRS_REPLAY)
+            if rows is None:
+                u.undecide(f"resimulation.pairs.each_pair_once_with_its_own_champion[{nproc}]", fi.qualname, "unrecognised way of building the result table (no single pandas.DataFrame of a list)")
+            else:
+                judge(u, p, f"resimulation.pairs.each_pair_once_with_its_own_champion[{nproc}]", norm(got), norm(want), PAIRS_REPLAY)
         u.cover(f"resimulation.pairs.cover[{nproc}]", ps, lambda p: p.kind == "return")
 
 
@@ -474,18 +501,22 @@ def extract_unit(u: Unit):
             continue
         comb = [e for e in p.st.events if e[0] == "lib_call" and e[1] == "xarray.combine_by_coords"]
         parts = p.ex.try_list(comb[0][2][0]) if len(comb) == 1 and comb[0][2] else None
-        ok, detail = parts is not None and len(parts) == 2, ""
-        for j, part in enumerate(parts or []):
+        if parts is None or len(parts) != 2:
+            u.undecide("extract.each_node_from_its_own_bucket_and_row", fi.qualname, "unrecognised way of combining the rows")
+            continue
+        got_all, want_all = [], []
+        for j, part in enumerate(parts):
             t = term(p.ex, part)
-            if not t.endswith(f".assign_coords(id_processor=row{j}['id_processor'], island=row{j}['island']).expand_dims(['island', 'id_processor'])"):
-                ok, detail = False, f"row {j}: filed as {t[-200:]}"
-                break
-            ds = part.info["fn"].info["of"].info["fn"].info["of"]
-            st = {k: term(p.ex, v) for k, v in stores(p.ex, p, ds).items()}
-            want = {f"simulated_{b}": f"xarray.DataArray(dask.array.from_delayed(row{j}['data_tree']['{b}'], dtype=builtins.float, shape=(times, rows, cols)), dims=['readout_time', 'y', 'x'])"
+            node, ds = part, None
+            while isinstance(node, VOpaque) and "fn" in node.info:          # walk back to the Dataset the per-row arrays were stored in
+                node = node.info["fn"].info.get("of")
+                if isinstance(node, VOpaque) and stores(p.ex, p, node):
+                    ds = node
+                    break
+            st = {k: term(p.ex, v) for k, v in stores(p.ex, p, ds).items()} if ds is not None else {}
+            got_all.append((t[t.find(".assign_coords("):] if ".assign_coords(" in t else t, sorted(st.items())))
+            want = {f"simulated_{b}": f"xarray.DataArray(dask.array.from_delayed(row{j}['data_tree']['{b}'], dtype=builtins.float, shape=[times, rows, cols]), dims=['readout_time', 'y', 'x'])"
                     for b in ("photon", "charge", "pixel", "signal", "image")}
-            if st != want:
-                ok, detail = False, f"row {j}: " + str({k: v for k, v in st.items() if want.get(k) != v})[:400]
-                break
-        u.oblige(p, "extract.each_node_from_its_own_bucket_and_row", bool(ok), {"detail": detail}, PAIRS_REPLAY)
+            want_all.append((f".assign_coords(id_processor=row{j}['id_processor'], island=row{j}['island']).expand_dims(['island', 'id_processor'])", sorted(want.items())))
+        judge(u, p, "extract.each_node_from_its_own_bucket_and_row", got_all, want_all, PAIRS_REPLAY)
     u.cover("extract.cover", ps, lambda p: p.kind == "return")
